@@ -248,6 +248,32 @@ theorem partition (jump : Nat → Nat → Nat) (C : Calc) (hC : CalcSpec C)
           simpa [sameShard] using this
       exact ⟨hsh, hsorted_mem r hrs, (hfam r hr).1, (hfam r hr).2⟩
 
+/-- **partition**, second half of "exactly one": no two groups have the same (shard, family), i.e. the
+rows of one shard and one family are never split over two FamilyChannel.Write calls. -/
+theorem groups_distinct (jump : Nat → Nat → Nat) (C : Calc) (hC : CalcSpec C)
+    {sortShard sortTs : List BRow → List BRow}
+    (hss : SortSpec lessShard sortShard) (hst : SortSpec lessTs sortTs) (n : Nat) (rows : List BRow) :
+    (route jump C sortShard sortTs n rows).Pairwise
+      (fun g₁ g₂ => ¬ (g₁.shard = g₂.shard ∧ g₁.famTime = g₂.famTime)) := by
+  unfold route
+  rw [List.pairwise_flatMap]
+  constructor
+  · intro sg _
+    rw [List.pairwise_map]
+    exact (familyGroups_distinct C hC hst _).imp (fun {a b} h hab => h hab.2)
+  · have hsorted : (sortShard (assignShards jump n rows)).Pairwise (fun x y => x.shard ≤ y.shard) :=
+      (hss.ordered _).imp (fun {x y} h => by simpa [lessShard] using h)
+    have hun := runs_heads_unrelated sameShard (fun x y => x.shard ≤ y.shard) ?_ _ hsorted
+    · refine hun.imp ?_
+      intro g₁ g₂ h x hx y hy hxy
+      obtain ⟨fx, _, rfl⟩ := List.mem_map.1 hx
+      obtain ⟨fy, _, rfl⟩ := List.mem_map.1 hy
+      simp only [sameShard, beq_eq_false_iff_ne, ne_eq] at h
+      exact h hxy.1.symm
+    · intro a x b hax hxb hp
+      simp only [sameShard, beq_iff_eq] at hp ⊢
+      omega
+
 /-- **evict_exact** (row level): in a batch whose slots carry no stale mark, a row is marked
 — and therefore not written — iff its timestamp is outside the write window; the returned count is
 the number of such rows; nothing else about a row changes. -/
